@@ -204,3 +204,35 @@ func e1fn(mod, pkgSuffix, name string) {
 		}
 	}
 }
+
+// e1paramaborts: explicit rejections whose deciding fact mentions a parameter row — a debugging aid.
+func e1paramaborts(mod string) {
+	e := &Env{overlay: cliOverlay, progs: map[string]*Program{}, models: map[string]*Model{}}
+	m := e.Model(mod)
+	r := RunE1(m)
+	for _, h := range r.Handlers {
+		seen := map[string]bool{}
+		for _, o := range h.AbortOuts {
+			idx := errResultIndex(h.Fn.Signature)
+			if idx < 0 || idx >= len(o.Rets) {
+				continue
+			}
+			ev, ok := o.Rets[idx].(*ErrV)
+			if !ok || len(o.St.facts) == 0 {
+				continue
+			}
+			last := o.St.facts[len(o.St.facts)-1]
+			k := ev.Origin + " <= " + last
+			if seen[k] {
+				continue
+			}
+			seen[k] = true
+			for _, t := range m.Tables {
+				if t.Singleton && strings.Contains(last, t.Name+"#") {
+					fmt.Printf("%s: %s\n", h.Key, k)
+					break
+				}
+			}
+		}
+	}
+}
